@@ -72,6 +72,8 @@ def _engine_call(call, names):
     from pybtex import errors
     import pybtex.bibtex as B
     mode = call[0]
+    if mode == 4:
+        return _main_run(call)
     with errors.capture() as cap:
         if mode == 0:
             ret = B.make_bibliography(S(call[1]), style=_opt(call[2], S), bib_format=_opt(call[3], U.parser_of), min_crossrefs=call[4])
@@ -96,7 +98,46 @@ def _engine_call(call, names):
             ret = B.format_from_file(S(call[1]), style=S(call[2]), bib_format=_opt(call[4], U.parser_of), min_crossrefs=call[5], **kw)
         return ret, len(cap)
 
+FORMAT_NAMES = {0: 'bibtex', 1: 'yaml', 2: 'bibtexml'}
+def _main_run(call):
+    """the command line, in process: pybtex.__main__.main with sys.argv = pybtex [-s STYLE] [-f FORMAT] [--min-crossrefs N] FILE
+    (option spellings vary with the case).  -> (None, number of reports)"""
+    import sys
+    from pybtex import errors
+    from pybtex.__main__ import main
+    name, so, fo, mo = S(call[1]), call[2], call[3], call[4]
+    v = (len(name) + sum(len(x) for x in so)) % 3
+    argv = ['pybtex']
+    if so:
+        argv += [['-s', S(so[0])], ['--style', S(so[0])], ['--style=' + S(so[0])]][v]
+    if fo:
+        argv += [['-f', FORMAT_NAMES[fo[0]]], ['--bibliography-format=' + FORMAT_NAMES[fo[0]]], ['-f' + FORMAT_NAMES[fo[0]]]][v]
+    if mo:
+        argv += [['--min-crossrefs', str(mo[0])], ['--min-crossrefs=%d' % mo[0]], ['-min-crossrefs=%d' % mo[0]]][v]
+    if v == 1:
+        argv += ['--terse']
+    argv += [name]
+    old_argv, old_strict, old_code = sys.argv, errors.strict, errors.error_code
+    sys.argv = argv
+    try:
+        with errors.capture() as cap:
+            try:
+                main.main()
+            except SystemExit:
+                pass
+            return None, len(cap)
+    finally:
+        sys.argv = old_argv; errors.strict = old_strict; errors.error_code = old_code
+
+def _as_api_call(call):
+    """a command-line call as the make_bibliography call the documentation says it is ('.aux' appended unless it is there)"""
+    if call[0] != 4:
+        return call
+    name = S(call[1])
+    return [0, norm(name if posixpath.splitext(name)[1] == '.aux' else name + '.aux'), call[2], call[3], call[4][0] if call[4] else 2]
+
 def _explicit_equivalent(files, call):
+    call = _as_api_call(call)
     """for a make_bibliography call: what the equivalent explicit call returns (the oracle's own reading of the
     .aux file decides which call that is).  -> ['n/a'] | [0, text] | [1] | [2]"""
     from pybtex import errors
@@ -135,7 +176,7 @@ def impl_engine(arg):
                     written.append([nm, open(nm, encoding='utf-8', newline='').read()])
             return [written, [ret] if ret is not None else [], nrep]
         out = call_impl(run)
-        if call[0] == 0:
+        if call[0] in (0, 4):
             for nm in os.listdir('.'):
                 if nm not in before:
                     os.unlink(nm)
@@ -363,6 +404,7 @@ def _fn2_view(arg):
     """what an engine call of function 2 is about, read independently of pybtex: (style, entries, citations, min_crossrefs)
     with entries / citations as str; None if the call does not determine them (missing files ...)"""
     files, call = arg
+    call = _as_api_call(call)
     byname = {S(n): (k, c) for n, k, c in files}
     mode = call[0]
     if mode == 0:
@@ -396,7 +438,7 @@ def _fn2_view(arg):
 
 def _fn2_items(arg, out):
     """the '[key]' header lines of the dump-like synthetic styles"""
-    call = arg[1]
+    call = _as_api_call(arg[1])
     if out[0] != 0:
         return None
     written, ret = out[1][0], out[1][1]
@@ -433,6 +475,7 @@ def oracle(fn, arg, out):
         return None
     if fn == 2:
         files, call = arg
+        call = _as_api_call(call)
         if call[0] != 0 or len(out) < 2:
             return None
         eq = out[-1]
@@ -676,7 +719,7 @@ def sched_style(rng):
     return norm([U._entry(), cmd('INTEGERS', [Id('n')]), g, inc, show] + pres + [cmd('READ')] + steps)
 
 def gen_engine(tier, rng):
-    n = 2200 if tier == 'quick' else 15000
+    n = 2000 if tier == 'quick' else 15000
     for i in range(n):
         style = rng.choice(SYN_NAMES + ['dump', 'dump', 'bytitle', 'bytitle', 'sched', 'sched', 'sched', 'sched'])
         other = rng.choice([s for s in SYN_NAMES if s != style])
@@ -725,6 +768,39 @@ def gen_engine(tier, rng):
         else:
             co = [cites] if rng.random() < 0.85 else []
             yield ('engine_file', 2, [files, [3, names[0] + U.SUFFIX[fmt], style, co, fo, m]])
+
+STYLE_FILE_NAMES = ['house.sorted', 'house', 'my-style', 'House.Two', 'st.v1.2', 'UPPER', 'a.b', 'plainish']
+AUX_FILE_NAMES = ['doc.aux', 'doc', 'my.doc', 'my.doc.aux', 'Paper-1', 'a.b.aux', 'Thesis.Final', 'x.auxx', '.aux']
+DB_FILE_NAMES = ['refs', 'my.refs', 'Refs-2', 'a.b.c']
+def gen_cli(tier, rng):
+    """the command line entry point (pybtex.__main__.main, in process) with -s / -f / --min-crossrefs in their spellings;
+    names of style, .aux and database files with periods, dashes and upper case; every style name has a differently
+    behaving neighbour (its name up to the first / last period, lower-cased ...) on disk"""
+    kinds = ['dump', 'bytitle', 'rev', 'byyear', 'count', 'types']
+    for i in range(200 if tier == 'quick' else 2500):
+        snames = rng.sample(STYLE_FILE_NAMES, 3)
+        ks = rng.sample(kinds, 3)
+        files = [[n + '.bst', 1, SYN[k]] for n, k in zip(snames, ks)]
+        have = set(n for n in snames)
+        for n in snames:       # neighbours a sloppy normalisation would pick instead
+            for alt in (n.split('.')[0], n.rsplit('.', 1)[0], n.lower(), n.replace('-', '')):
+                if alt and alt not in have and alt.lower() not in [h.lower() for h in have]:
+                    have.add(alt); files.append([alt + '.bst', 1, SYN[rng.choice([k for k in kinds if k != ks[snames.index(n)]])]])
+        dbn = rng.sample(DB_FILE_NAMES, rng.choice([1, 2]))
+        fmt = rng.choice([0, 0, 1])
+        db = rand_db(rng, dups=False)
+        parts = [db] if len(dbn) == 1 else [db[:len(db) // 2], db[len(db) // 2:]]
+        files += [[n + U.SUFFIX[fmt], 2, [fmt, p]] for n, p in zip(dbn, parts)]
+        if fmt == 1 or rng.random() < 0.3:
+            files.append([dbn[0] + U.SUFFIX[1 - fmt], 2, [1 - fmt, rand_db(rng, dups=False)]])
+        cites = rng.choice([['*'], rand_cites(rng), [e[0] for e in db][::-1] + ['zz']])
+        auxn = rng.choice(AUX_FILE_NAMES)
+        onfile = auxn if posixpath.splitext(auxn)[1] == '.aux' else auxn + '.aux'
+        files.append([onfile, 0, aux_lines(cites, snames[0], dbn, rng)])
+        so = [snames[1]] if rng.random() < 0.7 else []
+        fo = [fmt] if (fmt == 1 or rng.random() < 0.3) else []
+        mo = [rng.choice([1, 2, 3])] if rng.random() < 0.5 else []
+        yield ('command_line', 2, [files, [4, auxn, so, fo, mo]])
 
 def gen_aux_nested(tier, rng):
     """.aux files that \\@input chapter files between their own \\citation lines (depth <= 2; \\bibstyle / \\bibdata in the
@@ -860,7 +936,7 @@ def real_cites(rng, db, star=True):
 
 def gen_real(tier, rng):
     styles = U.STYLES_QUICK if tier == 'quick' else U.STYLES_THOROUGH
-    n = 110 if tier == 'quick' else 400
+    n = 90 if tier == 'quick' else 400
     for style in styles:
         for i in range(n):
             db = real_db(rng)
@@ -908,7 +984,7 @@ def variant(rng, db, cites, kind):
 
 def gen_pairs(tier, rng):
     styles = ['dump', 'bytitle', 'plain', 'unsrt', 'alpha'] + ([] if tier == 'quick' else ['unsrt_mixed', 'IEEEtran', 'apacite', 'jurabib'])
-    n = 95 if tier == 'quick' else 300
+    n = 80 if tier == 'quick' else 300
     for style in styles:
         for i in range(n):
             kind = i % 2
@@ -953,7 +1029,7 @@ def gen(tier, rng):
     U.base_dir()          # made here, before the worker processes are forked, removed by this process at exit
     for c in PINNED:
         yield c
-    for g in (gen_aux, gen_engine, gen_aux_order, gen_aux_nested, gen_history, gen_real, gen_sort, gen_pairs, gen_splitext):
+    for g in (gen_aux, gen_engine, gen_aux_order, gen_aux_nested, gen_cli, gen_history, gen_real, gen_sort, gen_pairs, gen_splitext):
         for c in g(tier, rng):
             yield c
 
@@ -985,6 +1061,8 @@ def describe(fn, arg):
             for n, k, c in arg[0]:
                 fs[S(n)] = [S(l) for l in c] if k == 0 else (U.to_bst(c) if k == 1 else U.db_text(c[0], c[1]))
             call = arg[1]
+            if call[0] == 4:
+                return {'files': fs, 'call': 'command line: pybtex [-s %s] [-f %s] [--min-crossrefs %s] %s' % ([S(x) for x in call[2]], call[3], call[4], S(call[1]))}
             return {'files': fs, 'call': ['make_bibliography', 'format_from_files', 'format_from_strings', 'format_from_file'][call[0]], 'args': repr(call[1:])[:400]}
         if fn == 3:
             return {'bib': U.bib_text(arg[0]), 'citations': [S(c) for c in arg[1]], 'min_crossrefs': arg[2], 'style': S(arg[3]), 'entry_point': ['make_bibliography', 'format_from_string'][arg[4]]}
